@@ -48,6 +48,10 @@ func DecodeMap(bytes []byte) (*AmmoConfig, error) {
 	if err != nil {
 		return nil, fmt.Errorf("%s, yaml.Unmarshal, %w", op, err)
 	}
+	err = checkStringKeys(data)
+	if err != nil {
+		return nil, fmt.Errorf("%s, %w", op, err)
+	}
 	err = config.DecodeAndValidate(data, &ammoCfg)
 	if err != nil {
 		return nil, fmt.Errorf("%s, config.DecodeAndValidate, %w", op, err)
@@ -57,6 +61,34 @@ func DecodeMap(bytes []byte) (*AmmoConfig, error) {
 		return nil, fmt.Errorf("%s, %w", op, err)
 	}
 	return &ammoCfg, nil
+}
+
+// checkStringKeys rejects maps with non-string keys (`1: x`), which the config decoder can't handle.
+func checkStringKeys(v any) error {
+	switch val := v.(type) {
+	case map[string]any:
+		for _, item := range val {
+			if err := checkStringKeys(item); err != nil {
+				return err
+			}
+		}
+	case map[any]any:
+		for key, item := range val {
+			if _, ok := key.(string); !ok {
+				return fmt.Errorf("key %v is not a string", key)
+			}
+			if err := checkStringKeys(item); err != nil {
+				return err
+			}
+		}
+	case []any:
+		for _, item := range val {
+			if err := checkStringKeys(item); err != nil {
+				return err
+			}
+		}
+	}
+	return nil
 }
 
 // checkNoEmptyItems rejects empty list items (`- ` without a value), which decode to nil components.
